@@ -5,7 +5,7 @@ import sys
 sys.path.insert(0, os.path.join(os.path.dirname(os.path.abspath(__file__)), "..", "lib"))
 sys.path.insert(0, os.path.join(os.path.dirname(os.path.abspath(__file__)), "..", "translator"))
 from ksiverif.runner import Config, Engine  # noqa: E402
-from ksiverif import sig as S, pdu, pki, pubfile as PF  # noqa: E402
+from ksiverif import core, sig as S, pdu, pki, pubfile as PF  # noqa: E402
 from ksiverif.gen import hx  # noqa: E402
 import tables  # noqa: E402
 
@@ -34,7 +34,7 @@ class World:
 
 def line(pol, s, userpub, ext, ver, rep, pf, good, win, sigok, label):
     return "a %s %s %s %d %d %s %s %s | %s win=%d:%d sig=%d %s" % (
-        pol, hx(s.enc()), userpub or "-", ext, ver, hx(KEY), "none" if rep is None else hx(rep), "-" if pf is None else hx(pf),
+        pol, hx(s.enc()), userpub or "-", ext, ver, hx(KEY), "none" if rep is None else hx(rep), "-" if pf is None else (pf if isinstance(pf, str) else hx(pf)),
         ",".join(hx(g) for g in good) or "-", win[0], win[1], sigok, label)
 
 
@@ -60,6 +60,18 @@ def key_cases(rng, W, ver):
             s.auth_sd = (SIGTYPE, pki.rsa_sign(keyfile, S.published_data(*s.auth)), cid)
             label = "ok" if nb <= t <= na else "fail:1027"
             yield line("key", s, None, 0, ver, None, W.pubfile([(cid, der)], others), [der, W.pk], (nb, na), 1, label)
+    # the publications file the *context* fetches and PKI-verifies: a trusted one serves the key-based policy like a user-supplied
+    # one; an untrusted one (signed under another root, or under a constraint that does not match) must not be used at all
+    der, keyfile, nb, na = W.keys["wide"]
+    s = at_times(rng, 1450000000, 1450001000)
+    s.auth_sd = (SIGTYPE, pki.rsa_sign(keyfile, S.published_data(*s.auth)), cid)
+    blobs = []
+    signed = PF.build([(cid, der)], others, lambda body: (blobs.append(pki.sign(body)), blobs[-1])[1])
+    EMAIL = pki.OIDS["emailAddress"]
+    for anchors, val, t in (("ca", pki.SUBJECT["emailAddress"], 1), ("other", pki.SUBJECT["emailAddress"], 0), ("ca", "someone@else.example", 0)):
+        ctxpf = "ctx:%s:%s:%s:t%d:%s" % (anchors, EMAIL, hx(val.encode()), t, hx(signed))
+        for pol in ("key", "general"):
+            yield line(pol, s, None, 0, ver, None, ctxpf, [der, blobs[0]], (nb, na), 1, "ok" if t else "na:publications-file-not-trusted")
     der, keyfile, nb, na = W.ec
     ECTYPE = SIGTYPE       # the digest is found through the OID; OpenSSL 3 does not map ecdsa-with-SHA256 to one, the RSA name works for any key
     s = at_times(rng, 1450000000, 1450001000)
@@ -96,6 +108,7 @@ def gen(rng, tier):
                 same = S.Cal(s.cal.pub_time, s.cal.aggr_time if s.cal.aggr_time is not None else None, s.cal.input_hash, list(s.cal.links))
                 same_t = S.Cal(s.cal.pub_time, t, s.cal.input_hash, list(s.cal.links))
                 yield L("calendar", "ok", rep=R(same_t))
+                yield L("calendar", "na:mac", rep=pdu.drop_mac(R(same_t)))             # the honest reply without its MAC element
                 rights = [k for k, (d, _) in enumerate(same_t.links) if not d]
                 lefts = [k for k, (d, _) in enumerate(same_t.links) if d]
                 if s.pub:
@@ -120,6 +133,7 @@ def gen(rng, tier):
                 p = t + rng.choice([0, 5, 86400])
                 head = S.extender_chain(rng, s, t, p, root)
                 yield L("calendar", "ok", rep=R(head))
+                yield L("calendar", "na:mac", rep=pdu.drop_mac(R(head)))
                 h = bytearray(root); h[1] ^= 1
                 yield L("calendar", "fail:1282", rep=R(S.Cal(p, t, bytes(h), list(head.links))))
                 yield L("calendar", "fail:1283", rep=R(S.extender_chain(rng, s, t + 1, max(p, t + 1), root)))
@@ -160,6 +174,7 @@ def gen(rng, tier):
             yield L("userpub", "na:extender-status", userpub=good_up, ext=1, rep=R(ext_chain, status=0x104))
             yield L("userpub", "na:no-extender", userpub=good_up, ext=1, rep=None)
             yield L("userpub", "na:mac", userpub=good_up, ext=1, rep=R(ext_chain, key=b"nope"))
+            yield L("userpub", "na:mac", userpub=good_up, ext=1, rep=pdu.drop_mac(R(ext_chain)))                           # no MAC element at all
             yield L("userpub", "na:foreign-id", userpub=good_up, ext=1, rep=R(ext_chain, rid=9))
             yield L("userpub", "na:no-chain", userpub=good_up, ext=1, rep=R(None))
             yield L("userpub", "internal", userpub=good_up, ext=1, rep=R(ext_chain), sig=bad_s)
@@ -235,7 +250,7 @@ CONFIG.required_theorems = ["rhoA_internal", "never_ok_unless_consistent", "key_
                              "pubfile_tree", "pubfile_ok_only_if", "calendar_tree", "calendar_ok_only_if", "general_tree", "general_ok_only_if",
                              "userpub_other_hash_PUB04", "userpub_extending_forbidden_NA", "key_certificate_window_KEY03"]
 CONFIG.translators = [tables.gen_templates, tables.gen_hashalgs, tables.gen_policies, tables.gen_crc]
-CONFIG.engines = [Engine("c04", ["exec_c04.c"], "drv_c04", gen, trivial=trivial)]
+CONFIG.engines = [Engine("c04", ["exec_c04.c"], "drv_c04", gen, env={"VERIF_PKI_DIR": os.path.join(core.VERIF, ".build", "pki")}, trivial=trivial)]
 CONFIG.rule = ("op lines from one PRNG (VERIF_SEED). hashlib-built signatures without calendar chain / with one and a publication record, an "
                "authentication record, or neither, verified under the calendar-, key-, publications-file-, user-publication-based and general "
                "policies with everything outside the signature supplied: user publication (the signature's own, other hash, other time, not later than "
